@@ -359,6 +359,14 @@ def c05_r5(ctx):
     uq = uqs[0] if len(uqs) == 1 else "usequality"
     uq_defs = [norm.canon(v) if v is not None else "<non-simple binding>" for v in asg.get(uq, [])]
     mvars = set(n_ for n_, vals in asg.items() if any(v is not None and norm.canon(v) == "self.matcher" for v in vals)) | {"self.matcher"}
+    # ... and plain copies of such a local (a helper inlined back brings `m2 = matcher`)
+    grew = True
+    while grew:
+        grew = False
+        for n_, vals in asg.items():
+            if n_ not in mvars and any(isinstance(v, ast.Name) and v.id in mvars for v in vals if v is not None):
+                mvars.add(n_)
+                grew = True
     ctx.ob(f, bool(uq_defs) and all(d == "self._use_block_quality()" for d in uq_defs),
            "usequality is always self._use_block_quality()", detail=str(uq_defs))
     fa = guards.Facts(f)
